@@ -2,8 +2,8 @@
 from checks import pfcp_common as pc
 
 MANIFEST = dict(
-    text='Kernel-checked: emit (the one emission routine behind all three carriers) numbers the IEs of each URR consecutively from the stored counter, without gap or repeat (mod 2^32), leaves the counter at start + number emitted, does not touch URRs without a report (independence), drops a removed URR after its first IE; Create URR starts at 0; no other per-session operation changes a counter (for any category order); the session stored after each carrier is the first component of the very emission whose second component was sent, so counters chain across messages; counters stay < 2^32 in every reachable state. PARTIAL: Create URR naming an id the session still holds resets the counter (refuted lemma C11_create_urr_existing_id_refuted; finding sig=create-urr-existing-id). Tie: differential run + an independent per-(session, URR) counter monitor.',
-    note='Partial: duplicate Create URR for a live id is a recorded finding. ',
+    text='Kernel-checked: emit (the one emission routine behind all three carriers) numbers the IEs of each URR consecutively from the stored counter, without gap or repeat (mod 2^32), leaves the counter at start + number emitted, does not touch URRs without a report (independence), drops a removed URR after its first IE; Create URR starts at 0; no other per-session operation changes a counter (for any category order); the session stored after each carrier is the first component of the very emission whose second component was sent, so counters chain across messages; counters stay < 2^32 in every reachable state. A Create URR naming an id the session still holds keeps the running counter, and leaves the bookkeeping untouched when the data plane rejects the duplicate (C11_create_urr_held_keeps_counter, C11_create_urr_duplicate_rejected_unchanged; the former finding create-urr-existing-id is fixed and its history is a regression case). Tie: differential run + an independent per-(session, URR) counter monitor.',
+    note='Reports that arrive for a URR after its removal produced no final report (its entry lingers, marked removed) may continue or restart the numbering: the property does not say, the monitor accepts both. ',
     technique="Coq lemmas on the emission / queue / reference-count functions + differential run + trace monitor",
     design='4/C11')
 
